@@ -74,7 +74,7 @@ func reportYields(rep *vk.Report) {
 }
 
 func checkC06(rep *vk.Report) {
-	rep.Rule = "round = one bulkhead (maxConcurrency 1/2/3/5, max wait 0/200us/5ms/20ms) shared by 6-48 goroutines that run sync/async executions through {bh, retry(bh), timeout(bh), bh(timeout), hedge(bh), fallback(bh)} with functions that return, fail, hold or block until cancelled, contexts that are cancelled or reach a deadline before the call, while waiting for a permit or while holding it, standalone Try/Acquire/AcquireWithMaxWait/Release users, and release+cancel hand-offs fired back to back; yield point between the two acquire phases perturbed. Oracles: shadow occupancy (incremented inside the function / after a standalone acquire) never above maxConcurrency; after quiescence exactly maxConcurrency TryAcquirePermit probes succeed; ErrFull/context errors never come with a function entry; OnFull count equals ErrFull refusals; a goroutine parked in ReleasePermit at a stuck round means a permit was returned that was not held; standalone histories linearizable against a counting semaphore (porcupine). Non-trivial: more concurrent callers than permits with >=1 cancellation while waiting and >=1 while holding; distinct by (capacity, max wait, composition, workers, exit paths seen)."
+	rep.Rule = "round = one bulkhead (maxConcurrency 0 - admits nothing - or 1/2/3/5, max wait 0/200us/5ms/20ms) shared by 6-48 goroutines that run sync/async executions through {bh, retry(bh), timeout(bh), bh(timeout), hedge(bh), fallback(bh)} with functions that return, fail, hold or block until cancelled, contexts that are cancelled or reach a deadline before the call, while waiting for a permit or while holding it, standalone Try/Acquire/AcquireWithMaxWait/Release users, and release+cancel hand-offs fired back to back; yield point between the two acquire phases perturbed. Oracles: shadow occupancy (incremented inside the function / after a standalone acquire) never above maxConcurrency; after quiescence exactly maxConcurrency TryAcquirePermit probes succeed; ErrFull/context errors never come with a function entry; OnFull count equals ErrFull refusals; a goroutine parked in ReleasePermit at a stuck round means a permit was returned that was not held; standalone histories linearizable against a counting semaphore (porcupine). Non-trivial: more concurrent callers than permits with >=1 cancellation while waiting and >=1 while holding; distinct by (capacity, max wait, composition, workers, exit paths seen)."
 	rep.Assumptions = []string{
 		"the shadow counter is always <= the true occupancy (sound over-approximation of 'in progress')",
 		"every wait in the workload is bounded, so a stuck round is decided on goroutine state (parked in ReleasePermit), not on the clock",
@@ -108,7 +108,7 @@ func checkC06(rep *vk.Report) {
 
 func c06Round(rep *vk.Report, idx int) {
 	r := vk.Rng(rep.Seed, "C06", idx)
-	cs := c06Case{Cap: vk.Pick(r, 1, 2, 3, 5), MaxWait: vk.Pick(r, int64(0), 200e3, 5e6, 20e6),
+	cs := c06Case{Cap: vk.Pick(r, 1, 1, 2, 2, 3, 3, 5, 5, 0), MaxWait: vk.Pick(r, int64(0), 200e3, 5e6, 20e6),
 		Comp: vk.Pick(r, "bh", "bh", "retry(bh)", "timeout(bh)", "bh(timeout)", "hedge(bh)", "fallback(bh)", "bh(bh2)"), Iters: 6 + r.IntN(10)}
 	cs.Workers = cs.Cap + 2 + r.IntN(40)
 	var onFull atomic.Int64
